@@ -26,3 +26,24 @@ Definition c10k_oracle (sc : scenario) (o : observation) : option bool :=
               end)
   | _, _ => None
   end.
+
+(* implementation = ConnK on hot-source histories: per-subscriber logs, and after EVERY action the number of
+   observers the source subject holds (= live source subscriptions of the connectable) *)
+From RX Require Import ConnK.
+Definition c13k_oracle (sc : scenario) (o : observation) : option bool :=
+  match sc_conns sc, sc_subjects sc with
+  | [(kind, PHot 0)], [(KSubject, _)] =>
+      if negb (Nat.eqb (ob_out o) 0) then None
+      else if negb (conn_history (sc_script sc)) then None
+      else if negb (nodupb (sub_handles_b (sc_script sc))) then None
+      else
+        let states := ck_run kind (sc_script sc) in
+        let final := last states ck0 in
+        Some (forallb (fun k => evs_sim (ulog (uenc (UTop k)) (ob_log o)) (c_clogs final k)) (seq 0 (sc_handles sc)) &&
+              forallb (fun js : nat * ck =>
+                         match nth_error (ob_snaps o) (fst js) with
+                         | Some (_, _, counts) => Nat.eqb (nth 0 counts 0) (c_nsrc (snd js))
+                         | None => true
+                         end) (combine (seq 0 (length states)) states))
+  | _, _ => None
+  end.
